@@ -164,10 +164,23 @@ func Run(t *simkit.Tape, o *simkit.Outcome, full bool) {
 		env.Funcs = append(env.Funcs, model.FuncSig{Name: "g", Arity: 0, Ret: model.TNodeSet})
 	}
 
+	// "any number of goroutines": now and then a crowd of 16-32 tasks, each
+	// inside one deeply nested evaluation when the others arrive (whatever the
+	// library counts or keeps per evaluation then exists 16-32 times at once)
+	crowd := 0
+	if t.Bool(1, 60) {
+		crowd = []int{16, 24, 32}[t.Draw(3)]
+		o.Probe("crowd-of-tasks")
+	}
 	// the shared pool of compiled expressions
 	var pool []*poolEntry
 	np := 2 + t.Draw(5)
 	forced := ""
+	deepIdx := -1
+	if crowd > 0 {
+		k := 6 + t.Draw(16)
+		forced = "count(//*" + strings.Repeat("[.//* or not(*)", k) + strings.Repeat("]", k) + ")"
+	}
 	capBase, capStep := t.Draw(len(world.CapacityExprs)), t.Draw(len(world.CapacityExprs)-1)
 	for i := 0; i < np; i++ {
 		var pe poolEntry
@@ -175,6 +188,9 @@ func Run(t *simkit.Tape, o *simkit.Outcome, full bool) {
 			pe.Str, pe.Type = world.CapacityExprs[(capBase+i*(1+capStep))%len(world.CapacityExprs)], model.TNodeSet
 		} else if forced != "" {
 			pe.Str, pe.Type = forced, model.TStr
+			if crowd > 0 && deepIdx < 0 {
+				deepIdx, pe.Type = i, model.TNum
+			}
 			forced = ""
 		} else {
 			switch t.Pick(3, 3, 2) {
@@ -229,9 +245,15 @@ func Run(t *simkit.Tape, o *simkit.Outcome, full bool) {
 
 	// tasks and their scripts; expected results from isolated worlds
 	nt := []int{2, 3, 4, 6, 8}[t.Pick(16, 8, 4, 1, 1)] // "any number of goroutines"
+	if crowd > 0 {
+		nt = crowd
+	}
 	tasks := make([][]*op, nt)
 	for ti := range tasks {
 		nops := 1 + t.Draw(5)
+		if crowd > 0 {
+			nops = 1
+		}
 		for k := 0; k < nops; k++ {
 			o1 := &op{}
 			d := t.Draw(len(w.Docs))
@@ -272,6 +294,13 @@ func Run(t *simkit.Tape, o *simkit.Outcome, full bool) {
 			x := &op{kind: "parse", parse: world.GenParseSpec(t)}
 			x.desc = fmt.Sprintf("Read%s(%d bytes)", x.parse.Kind, len(x.parse.Bytes))
 			tasks[ti] = append([]*op{x}, tasks[ti]...)
+		}
+	}
+	if crowd > 0 && deepIdx >= 0 {
+		for ti := range tasks {
+			x := tasks[ti][0]
+			x.kind, x.pool, x.own = "exec", deepIdx, false
+			x.desc = fmt.Sprintf("Exec(%s, e%d)", w.PathOf(x.ctx), deepIdx)
 		}
 	}
 	if specs[0].Family == "capacity" {
